@@ -150,3 +150,57 @@ def _eval3(c, flags: set[str]):
     if c[0] == "const":
         return bool(c[1])
     return None
+
+
+def _flag_rewrites(tree: ast.AST, flags: set) -> list:
+    """Constructs that rewrite a convergence flag of an existing result object: dataclasses.replace(x, flag=E) with E
+    other than x.flag, and attribute stores `x.flag = E` outside __init__."""
+    out = []
+    for fn in ast.walk(tree):
+        if not isinstance(fn, (ast.FunctionDef, ast.AsyncFunctionDef)):
+            continue
+        for n in ast.walk(fn):
+            if isinstance(n, ast.Call) and (util.text(n.func).split(".")[-1] == "replace") and n.args and not isinstance(n.args[0], ast.Constant):
+                for k in n.keywords:
+                    if k.arg in flags:
+                        same = util.text(k.value) == f"{util.text(n.args[0])}.{k.arg}"
+                        if not same:
+                            out.append((fn, n, k.arg, util.text(k.value, 60)))
+            elif isinstance(n, (ast.Assign, ast.AugAssign, ast.AnnAssign)) and fn.name != "__init__":
+                tg = n.targets if isinstance(n, ast.Assign) else [n.target]
+                for t in tg:
+                    if isinstance(t, ast.Attribute) and t.attr in flags and not (isinstance(t.value, ast.Name) and t.value.id == "self"):
+                        out.append((fn, n, t.attr, util.text(n.value, 60) if getattr(n, "value", None) is not None else "?"))
+    return out
+
+
+_REWRITE_SELFTEST = '''
+def f(result, stalled):
+    result = replace(result, restart_count=1, converged=result.converged or stalled)
+    other = replace(result, converged=result.converged)
+    result.happy_breakdown = True
+    return result
+'''
+
+
+def no_flag_rewrite(ctx, modules: tuple, flags: set) -> None:
+    """The convergence flags are produced by the result constructors that CONV-honest checks and by nothing else: no
+    function of the solver modules overwrites them on an existing result."""
+    prog = ctx.prog
+    demo = _flag_rewrites(ast.parse(_REWRITE_SELFTEST), flags | {"converged", "happy_breakdown"})
+    ctx.require(len(demo) == 2, f"CONV-rewrite: matcher self-test found {len(demo)} of 2 rewrites")
+    n = 0
+    bad = []
+    for m in prog.modules.values():
+        if not m.name.startswith(modules):
+            continue
+        n += sum(1 for x in ast.walk(m.tree) if isinstance(x, (ast.FunctionDef, ast.AsyncFunctionDef)))
+        for fn, node, flag, val in _flag_rewrites(m.tree, flags):
+            bad.append(f"{m.relpath}:{node.lineno} {fn.name} sets {flag} = {val}")
+    ctx.count("functions_scanned_for_flag_rewrites", n)
+    ctx.require(n >= 10, f"CONV-rewrite: only {n} functions scanned")
+    ctx.ob("CONV-rewrite", "|".join(sorted(modules)) + "|" + ",".join(sorted(flags)), bad[0].split(" ")[0] if bad else modules[0], not bad,
+           f"no function of {', '.join(modules)} overwrites {sorted(flags)} on an existing result ({n} functions scanned)"
+           if not bad else
+           f"{bad[0]}: the flag no longer means that the residual test passed — a caller that trusts it (the raising "
+           f"entry point returns whenever it is set) accepts an unconverged vector" + (f" (+{len(bad) - 1} more)" if len(bad) > 1 else ""))
